@@ -42,6 +42,7 @@ def main():
     only = [a[5:] for a in sys.argv[1:] if a.startswith('only=')]
     sizes = {'Topic': 1, 'Subscription': 1, 'Message': 1, 'Delivery': 1, 'Snapshot': 1}
     chk.bounds = {'tables': sizes, 'request': 'every field symbolic: strings arbitrary, integers over their full width, nested messages nil or present (depth 2), repeated fields 0..2, oneofs over their cases',
+                  'maps iterated by the code (push-config attributes)': '0..2 entries, arbitrary keys and values',
                   'interceptors honoured': chain}
     for h in hs:
         if only and h['method'] not in only:
@@ -160,10 +161,76 @@ def main():
     if not only or 'StreamingPull' in only:
         chk.run('StreamingPull:request-adapter', prog, stream_harness, bounds={'repeated fields': '0..3 entries each', 'integers': 'full width'},
                 setup=world.setup, max_paths=50000)
+    if not only:
+        pusher_chain(chk, prog)
     chk.assumptions += ['handlers are entered as grpc-go enters them: non-nil request message; wire decoding and grpc-go itself are outside the claim',
                         'a blocked Pull is released by its own timeout (the waiting itself is C10)',
                         'interceptors of this code base that are plain functions in (*grpcServer).Initialize are executed around the handler (logging / prometheus / fault injection are pass-through)']
     chk.finish()
+
+
+def pusher_chain(chk, prog):
+    """a request that changes a subscription's push configuration, then one round of the background http-pusher service (which runs
+    outside every interceptor: a panic there ends the process): whatever the request stored, the round does not panic"""
+    HP = SVC + 'httpPusher'
+    FM = 'google.golang.org/protobuf/types/known/fieldmaskpb.FieldMask'
+    hs = {h['method']: h for h in list_handlers(prog)}
+    if HP not in prog.types or ('(*' + HP + ').startPushersOnce') not in prog.funcs:
+        chk.inconclusive.append('http pusher service not found (renamed?): background round not checked')
+        return
+    for method in ('ModifyPushConfig', 'UpdateSubscription', 'CreateSubscription'):
+        def harness(ex, ob, method=method):
+            db = reldb.sym_db(ex, prog, {'Topic': 1, 'Subscription': 1, 'Message': 0, 'Delivery': 0, 'Snapshot': 0}, exists=True)
+            t0, s0 = db.t['Topic'][0], db.t['Subscription'][0]
+            t0.v['name'], s0.v['name'] = 'projects/p/topics/r0', 'projects/p/subscriptions/r0'
+            # representation invariant of stored push endpoints (what create / update establish): NULL or non-empty
+            ex.assume(Or(s0.isnull('push_endpoint'), Not(ex.eq(s0.v['push_endpoint'], ''))))
+            has_cfg = ex.choose(2) == 1
+            ep = z3.String('req.push_endpoint')
+            cfg = ex.new_ptr(ex.new_struct(PB + 'PushConfig', PushEndpoint=ep, Attributes=None)) if has_cfg else None
+            if method == 'ModifyPushConfig':
+                req = ex.new_ptr(ex.new_struct(PB + 'ModifyPushConfigRequest', Subscription='projects/p/subscriptions/r0', PushConfig=cfg))
+                rj = lambda m: {'subscription': 'projects/p/subscriptions/r0', **({'pushConfig': {'pushEndpoint': replay.mval(m, ep)}} if has_cfg else {})}
+            elif method == 'UpdateSubscription':
+                sub = ex.new_ptr(ex.new_struct(PB + 'Subscription', Name='projects/p/subscriptions/r0', PushConfig=cfg))
+                req = ex.new_ptr(ex.new_struct(PB + 'UpdateSubscriptionRequest', Subscription=sub, UpdateMask=ex.new_ptr(ex.new_struct(FM, Paths=ex.mkslice(['push_config'])))))
+                rj = lambda m: {'subscription': {'name': 'projects/p/subscriptions/r0', **({'pushConfig': {'pushEndpoint': replay.mval(m, ep)}} if has_cfg else {})}, 'updateMask': 'pushConfig'}
+            else:
+                req = ex.new_ptr(ex.new_struct(PB + 'Subscription', Name='projects/p/subscriptions/new', Topic='projects/p/topics/r0', PushConfig=cfg))
+                rj = lambda m: {'name': 'projects/p/subscriptions/new', 'topic': 'projects/p/topics/r0', **({'pushConfig': {'pushEndpoint': replay.mval(m, ep)}} if has_cfg else {})}
+            pre = db.snapshot()
+
+            def describe(m):
+                return {'service': 'subscriber', 'method': method, 'request': rj(m)}
+
+            def rp(m, desc):
+                rows = replay.rows_from_model(m, db.schema, pre)
+                scn = {'base_now': str(2 * 10**18), 'rows': rows,
+                       'ops': [{'op': 'grpc', 'service': 'subscriber', 'method': method, 'request': desc['request'], 'timeout_ms': 2000},
+                               {'op': 'http_pusher_round'}]}
+                out = replay.run_scenarios([scn])[0]
+                path = replay.save_scenario('C16', 'pusher-round-after-' + method, scn, desc)
+                if 'error' in out:
+                    return ('panic:' in out['error'] or 'goroutine ' in out['error']), path
+                return ('panic' in out['results'][-1]), path
+            try:
+                call_handler(ex, db, hs[method], req)
+            except GoPanic:
+                raise PathAbort('the handler itself panics: reported by the handler obligation')
+            ex.intrinsics = dict(ex.intrinsics)
+            ex.intrinsics[SVC + 'monitorPusher'] = lambda ex_, a, name: ex_.zero(SVC + 'monitoredPusher')
+            hp = ex.new_ptr(ex.new_struct(HP, client=reldb.make_client(ex, db), logger=Opaque('logger'), pushers=MapObj()))
+            try:
+                ex.call_named('(*' + HP + ').startPushersOnce', [hp, stdlib.new_context(ex)])
+            except GoPanic as p:
+                ob.verify(ex, 'pusher-round-does-not-panic: ' + panic_site(p), False, describe, replay=rp)
+                return
+            ob.reached(ex)
+            # and the request leaves the stored endpoint NULL or non-empty (keeps the invariant the round relies on inductive)
+            for r in db.t['Subscription']:
+                ob.verify(ex, 'stored-push-endpoint-is-null-or-non-empty', Or(r.isnull('push_endpoint'), Not(ex.eq(r.v['push_endpoint'], ''))), describe)
+        chk.run('chain:%s,http-pusher-round' % method, prog, harness, bounds={'request': 'push config absent or present with an arbitrary endpoint string', 'steps': 2},
+                setup=world.setup, max_paths=20000)
 
 
 def panic_site(p):
